@@ -186,7 +186,7 @@ impl fmt::Display for Token {
             Token::Int(int) => write!(f, "{int}"),
             Token::ENum(base, exp) => write!(f, "{base}E{exp}"),
             Token::Str(string, _) => write!(f, "\"{string}\""),
-            Token::DocStr(docstr) => write!(f, "##{docstr}"),
+            Token::DocStr(docstr) => write!(f, "\"\"\"{docstr}\"\"\""),
 
             Token::Range => write!(f, ".."),
             Token::RangeIncl => write!(f, "..="),
